@@ -531,6 +531,62 @@ def standard_size_cases(ctx, reps):
     return cs
 
 
+def recorded_logs():
+    """the byte streams recorded in the repository's own test directory (real receiver / caster output)"""
+    import glob
+    import os
+    root = os.path.join(os.environ.get("VERIF_REPO", "/repo"), "tests")
+    out = []
+    for f in sorted(glob.glob(os.path.join(root, "*.log"))):
+        try:
+            b = open(f, "rb").read()
+        except OSError:
+            continue
+        if 0 < len(b) <= 200000:
+            out.append((os.path.basename(f), b))
+    return out
+
+
+def recorded_frames():
+    """(file, frame bytes) of every CRC-valid frame found in the recorded logs by an independent scan"""
+    out = []
+    for name, b in recorded_logs():
+        i = 0
+        while i + 6 <= len(b):
+            if b[i] == 0xD3 and b[i + 1] & 0xFC == 0:
+                ln = ((b[i + 1] & 3) << 8) | b[i + 2]
+                fr = b[i:i + ln + 6]
+                if len(fr) == ln + 6 and gens.crc24q_ref(fr) == 0:
+                    out.append((name, fr))
+                    i += ln + 6
+                    continue
+            i += 1
+    return out
+
+
+def recorded_cases(kind):
+    """correspondence on the recorded logs: whole streams through the reader (every option combination, frame
+    events carry attribute digests), or every recorded payload through the constructor under both label options"""
+    cs = []
+    if kind == "reader":
+        for name, b in recorded_logs():
+            for v in (0, 1):
+                for q in (0, 1, 2):
+                    for lab in (1, 2):
+                        cs.append(case(reader_line(v, q, lab, True, True, "-", b), "recorded:%s" % name, None, {"handler": True}))
+            cs.append(case(reader_line(1, 1, 1, False, True, "-", b), "recorded:%s:raw" % name, None, {"handler": True}))
+    else:
+        seen = set()
+        for name, fr in recorded_frames():
+            p = fr[3:-3]
+            if p in seen:
+                continue
+            seen.add(p)
+            for lab in (1, 2):
+                cs.append(case("msg %d %s" % (lab, hx(p)), "recorded:%s" % name, None))
+    return cs
+
+
 def good_frames(ctx, n):
     """valid frames of implemented (decodable) and unknown types"""
     out = []
@@ -1706,3 +1762,16 @@ def _with_standard_sizes(gen):
 # properties about *valid frames* in streams: validity is by the standard
 for _pid in ("C01", "C02", "C05", "C17"):
     GENERATORS[_pid] = _with_standard_sizes(GENERATORS[_pid])
+
+
+def _with_recorded(gen, kind):
+    def wrapped(ctx):
+        return gen(ctx) + recorded_cases(kind)
+    return wrapped
+
+
+# the repository's recorded logs as an additional correspondence corpus (real-world messages)
+for _pid in ("C01", "C02", "C17"):
+    GENERATORS[_pid] = _with_recorded(GENERATORS[_pid], "reader")
+for _pid in ("C03", "C09", "C16", "C13"):
+    GENERATORS[_pid] = _with_recorded(GENERATORS[_pid], "msg")
